@@ -779,7 +779,9 @@ class Builder:
         exit_label = self._label_mgr.new_label(start_with="IF_EXIT")
         if_start: List[ICmd] = []
 
-        using_new_temp_reg = False
+        # A Future operand is loaded into a new temporary register, which must be
+        # released again once the branch instruction has been constructed.
+        using_new_temp_reg = isinstance(op, Future)
 
         cmds, cond_operand = self._get_condition_operand(op)
         if_start.extend(cmds)
